@@ -27,6 +27,7 @@ use std::collections::hash_map::HashMap;
 #[cfg(amiquip_verif)]
 use amiquip_simrt::collections::HashMap;
 use std::io;
+use std::mem;
 use std::sync::mpsc::TryRecvError;
 #[cfg(not(amiquip_verif))]
 use std::thread::{Builder, JoinHandle};
@@ -65,6 +66,10 @@ const SET_BLOCKED_TX: Token = Token(u16::max_value() as usize + 4);
 
 enum IoLoopMessage {
     Send(OutputBuffer),
+    // A frame of a method with content (the method itself, its header or a body frame)
+    // that will be followed by more frames of the same content; the last frame of the
+    // content is a plain Send.
+    SendContentPart(OutputBuffer),
     ConnectionClose(OutputBuffer),
     SetReturnHandler(Option<CrossbeamSender<Return>>),
     SetPubConfirmHandler(Option<CrossbeamSender<Confirm>>),
@@ -83,6 +88,12 @@ struct ChannelSlot {
     consumers: HashMap<String, CrossbeamSender<ConsumerMessage>>,
     return_handler: Option<CrossbeamSender<Return>>,
     pub_confirm_handler: Option<CrossbeamSender<Confirm>>,
+    // True while the channel's handle is part-way through sending a method with
+    // content. The frames of a content must stay contiguous on their channel, so
+    // anything the I/O thread itself wants to send on this channel meanwhile is
+    // collected in deferred_frames and written once the content is complete.
+    content_in_progress: bool,
+    deferred_frames: OutputBuffer,
 }
 
 impl ChannelSlot {
@@ -113,6 +124,8 @@ impl ChannelSlot {
             consumers: HashMap::new(),
             return_handler: None,
             pub_confirm_handler: None,
+            content_in_progress: false,
+            deferred_frames: OutputBuffer::empty(),
         };
 
         let loop_handle = IoLoopHandle::new(channel_id, mio_tx, rx);
@@ -838,6 +851,20 @@ impl Inner {
             }
             IoLoopMessage::Send(buf) => {
                 self.outbuf.append(buf);
+                if let Some(slot) = self.chan_slots.get_mut(channel_id) {
+                    if slot.content_in_progress {
+                        slot.content_in_progress = false;
+                        let deferred =
+                            mem::replace(&mut slot.deferred_frames, OutputBuffer::empty());
+                        self.outbuf.append(deferred);
+                    }
+                }
+            }
+            IoLoopMessage::SendContentPart(buf) => {
+                self.outbuf.append(buf);
+                if let Some(slot) = self.chan_slots.get_mut(channel_id) {
+                    slot.content_in_progress = true;
+                }
             }
             IoLoopMessage::SetReturnHandler(handler) => {
                 assert!(channel_id != 0, "channel 0 cannot have a return handler");
